@@ -13,6 +13,8 @@ CLAIMED = {
          'contract-based deductive verification (Verus) over a linear ghost ownership view of the columns', '7 C04'),
  'C06': ('proof', 'Slice accessors have length len() and content rows 0..len of the right column with the matching handle (Verus, all N columns).',
          'contract-based deductive verification (Verus) of slice accessors', '7 C06'),
+ 'C07': ('proof', 'The ecs_iter_destroy! template of macros/src/generate/query.rs is instantiated (R-tmpl, text of the quote! block, holes filled for a two-archetype schema) and its reverse loop verified by Verus with a ghost invocation trace: the j-th closure invocation is for the entity that sat in row len-1-j when the loop started (each original entity exactly once), exactly the flagged ones are destroyed (len decreases by the number of destroy decisions, rows not yet visited are untouched: handle, values, position), Break/BreakDestroy return at once also across archetypes, and the handle / direct handle / component cell passed to the closure are the visited row\'s own (direct handle minted at the current archetype version). Generated archetype wrappers are a hand-written thin model checked textually against world.rs (A-gen-arch).',
+         'contract-based deductive verification (Verus) of the instantiated ecs_iter_destroy! template over the storage contracts', '7 C07'),
  'C08': ('proof', 'create_post: the returned handle carries the generation of a slot that was FREE; generations only change in release (+1, never wraps in the default configuration because next() panics first); archetype id is packed into every handle. Freshness for all histories by lemma step_create.',
          'contract-based deductive verification (Verus): freshness postcondition of create + generation monotonicity', '7 C08'),
  'C09': ('proof', 'resolve_direct iff-contract (accepted iff version equal and index < len), archetype version +1 on every destroy and unchanged otherwise, to_direct mints (dense index, current version).',
@@ -35,7 +37,6 @@ CLAIMED = {
 
 NOT_APPLICABLE = {
  'C05': 'not yet under contract in this revision (binding functions of the macros crate); see DESIGN.md 7 C05',
- 'C07': 'not yet under contract in this revision (instantiated ecs_iter_destroy! template); see DESIGN.md 7 C07',
  'C11': "RefCell's dynamic borrow flag x nested generated programs is not expressible as a contract on any gecs function (Verus models only the functional value of borrow/borrow_mut); DESIGN.md 7 C11",
  'C16': 'relates two compilations (rustc cfg evaluation of a generated macro chain): no function contract can state it; DESIGN.md 7 C16',
  'C18': 'compile-time acceptance/rejection, auto traits and token content of expansions are rustc judgments, not pre/postconditions; DESIGN.md 7 C18',
